@@ -8,7 +8,7 @@ mkdir -p /tmp/mw
 # pool of build areas (each keeps its own warm target dir); wait for a free one
 W=
 while [ -z "$W" ]; do
-  for k in "" 2 3 4; do
+  for k in "" 2; do
     exec 9>"/tmp/mw/lock$k"
     if flock -n 9; then W=/tmp/mw/base$k; break; fi
     exec 9>&-
